@@ -8,9 +8,9 @@ Driver glue for C55.  One case per line:
   flags   three of `0`/`1`: includeTraceback, includeTimestamp, includeSystem (used by `eat` only)
   fn      `d` default formatTime | `c` hostile callable
   text    code points in decimal joined by `.` (empty text = empty string)
-  val     `n` None | `h` hostile | `t<text>`;   oval = `_` (key absent) | val
+  val     `n` None | `h` hostile | `y` the bytes b"\xff" | `t<text>`;   oval = `_` (key absent) | val
   exc     `<class index>/<g<text> | b<class index> | x>`
-  tape    outcomes joined by `;` (or `-`): `T<text>` | `N` | `O` | `R<exc>`
+  tape    outcomes joined by `;` (or `-`): `T<text>` | `N` | `O` | `B` (returns b"\xff") | `R<exc>`
   extras  `name=val` joined by `;` (or `-`)
   flat    `_` | `d<oval;oval;…>` | `o<val>`
   time    `_` | `n` | `good` | `nan` | `huge` | `big` | `o<val>`
@@ -71,6 +71,7 @@ def decVal (s : String) : Option Val :=
   match s.toList with
   | ['n'] => some .none
   | ['h'] => some .hostile
+  | ['y'] => some .bytes
   | 't' :: t => (decText (String.ofList t)).map Val.text
   | _ => none
 
@@ -82,6 +83,7 @@ def decOutcome (s : String) : Option Outcome :=
   | 'T' :: t => (decText (String.ofList t)).map Outcome.text
   | ['N'] => some .none
   | ['O'] => some .obj
+  | ['B'] => some .bytes
   | 'R' :: e => (decExc (String.ofList e)).map Outcome.raises
   | _ => none
 
